@@ -2509,11 +2509,11 @@ class Interp:
                 env.locals[k] = v
             if isinstance(node, ast.Lambda):
                 return self.eval(node.body, env)
-            is_gen = _GEN_CACHE.get(id(node))
+            is_gen = getattr(node, "_sa_is_gen", None)      # (kept on the node: id() is reused)
             if is_gen is None:
                 is_gen = any(isinstance(n, (ast.Yield, ast.YieldFrom))
                              for n in _walk_fn(node))
-                _GEN_CACHE[id(node)] = is_gen
+                node._sa_is_gen = is_gen
             if is_gen:
                 def thunk(env=env, node=node):
                     env.yields = []
